@@ -9,7 +9,7 @@ run_one() {
   id=$1; d=/verif/seeded/$id; R=/tmp/sr/$id; V=/tmp/sv/$id
   p=$(python3 -c "import json;print(json.load(open('$d/meta.json'))['breaks_property'])")
   rm -rf $R $V; mkdir -p $R $V/evidence
-  (cd /repo && git ls-files -z | xargs -0 cp --parents -t $R) || return
+  cp -r /tmp/sr/.base/. $R/ || return
   ln -s /verif/spec $V/spec; cp /verif/KNOWN_FINDINGS.txt $V/
   (cd $R && git init -q . 2>/dev/null; patch -p1 -s < $d/patch.diff) || { echo "ERROR   seed $id: patch does not apply"; rm -rf $R $V; return; }
   out=$(cd /verif && ./bin/cbv check -repo $R -verif $V -prop $p -tier quick 2>&1); rc=$?
@@ -26,4 +26,7 @@ PY
   if [ "$n" -gt 0 ]; then echo "KILLED  seed $id by $p ($n): $obs" | cut -c1-260; else echo "MISSED  seed $id by $p"; fi
 }
 export -f run_one
+# one snapshot of /repo's working tree, taken now: later edits of /repo do not leak into the run
+rm -rf /tmp/sr/.base; mkdir -p /tmp/sr/.base; (cd /repo && git ls-files -z | xargs -0 cp --parents -t /tmp/sr/.base)
 echo $ids | tr ' ' '\n' | xargs -P $J -I{} bash -c 'run_one {}'
+rm -rf /tmp/sr/.base
